@@ -149,6 +149,19 @@ def rule_must_pass_through(ctx, prog, trait, meth, callee, rule="R30"):
     root = prog.method(trait, meth)
     sites = [bb for bb, t in root.calls() if callee_name(t) == callee]
     key = "%s/every-path-runs-%s" % (meth, callee)
+    if not sites:
+        # the visit may be spelled through a sibling traversal of the same receiver (fold_skipnan with a unit accumulator, a `for`
+        # loop over self.iter(), …): any traversal-starting call on self serves as the point every path must pass
+        alt = ("fold", "try_fold", "try_for_each", "fold_skipnan", "indexed_fold_skipnan", "iter", "into_iter", "indexed_iter")
+        for bb, t in root.calls():
+            if callee_name(t) in alt:
+                a0 = ds(root.call_arg_exprs(bb)[0])
+                for _ in range(4):
+                    if isinstance(a0, tuple) and a0[0] == "call" and a0[1] in ("view", "iter", "into_iter", "deref") and a0[3]:
+                        a0 = ds(a0[3][0])
+                if isinstance(a0, tuple) and a0[:2] == ("param", 1):
+                    sites.append(bb)
+                    callee = callee_name(t)
     if len(sites) != 1:
         ctx.ob(rule, key, False, root.where(), "anchor not recognised: %d calls to %s" % (len(sites), callee), what="anchor not recognised")
         return
